@@ -116,7 +116,7 @@ def main(tier, only=None):
             if only and not any(key.startswith(o) or o in (a, b) for o in only):
                 continue
             hs.append(e1.H("h_%s_%s" % (a, b), key, unwind=8,
-                           unwindset=("read_punct.0:25", "read_ident.0:6", "strlen.0:5", "strncmp.0:5"),
+                           unwindset=("read_punct.0:25", "read_ident.0:6", "strlen.0:5", "strncmp.0:5", "strchr.0:20"),
                            defines=("__NO_CTYPE",), replace_calls=rc, timeout=600, object_bits=12))
     src = [os.path.join(HARNESS, "c19", "lexk.c")] + repo_units()
     e1.run_set(chk, "c19/relex.c", hs, workers=int(os.environ.get("VERIF_WORKERS", "6")), extra_src=src)
